@@ -163,3 +163,88 @@ func ZZ_C07_witness() {
 	ZZ_C07_ref()
 	vpAssert(false, "witness")
 }
+
+// C07-commit: the same tracker driven through the real session.commit (real
+// manifest, with and without manifest rotation on every commit): after any
+// sequence of flush-style and compaction-style commits every table that left
+// the live set is removed exactly once and the tracker keeps no
+// reference for it (no leak through an over-referenced version).
+func ZZ_C07_commit_ref() {
+	zzRemovedFiles, zzCurrent = nil, nil
+	s := &session{
+		stor:      newIStorage(storage.NewMemStorage()),
+		refCh:     make(chan *vTask),
+		relCh:     make(chan *vTask),
+		deltaCh:   make(chan *vDelta),
+		abandon:   make(chan int64),
+		fileRefCh: make(chan chan map[int64]int),
+		closeC:    make(chan struct{}),
+	}
+	maxm := int64(64 << 20)
+	if vpChoose(2) == 1 {
+		maxm = 1 // every commit after the first starts a new manifest
+	}
+	s.setOptions(&opt.Options{MaxManifestFileSize: maxm})
+	s.tops = &tOps{s: s}
+	var pinned *version
+	zzNeeded = func(num int64) bool {
+		return zzHasFile(s.stVersion, num) || (pinned != nil && zzHasFile(pinned, num))
+	}
+	s.closeW.Add(1)
+	go s.refLoop()
+	s.setVersion(nil, newVersion(s))
+	vpAssert(s.create() == nil, "create-ok")
+	var all []int64
+	for step := 0; step < zzCommitOps; step++ {
+		rec := &sessionRecord{}
+		if vpChoose(2) == 1 { // compaction-style: drop any one live table
+			var live []*tFile
+			for _, tt := range s.stVersion.levels {
+				live = append(live, tt...)
+			}
+			if len(live) > 0 {
+				victim := live[vpChoose(len(live))]
+				rec.delTable(1, victim.fd.Num)
+			}
+		}
+		num := s.allocFileNum()
+		k := []byte{byte('a' + step)}
+		rec.addTableFile(1, zzNumFile(num, k, k))
+		all = append(all, num)
+		vpAssert(s.commit(rec, false) == nil, "commit-ok")
+		if pinned == nil && vpChoose(2) == 1 {
+			pinned = s.version()
+		}
+	}
+	if pinned != nil {
+		p := pinned
+		pinned = nil
+		p.release()
+	}
+	for i := 0; i < zzFlushVersions; i++ {
+		vpAssert(s.commit(&sessionRecord{}, false) == nil, "flush-commit-ok")
+	}
+	ch := make(chan map[int64]int)
+	s.fileRefCh <- ch
+	refs := <-ch
+	for _, num := range all {
+		if zzHasFile(s.stVersion, num) {
+			// (the count is 1, or 2 while the current version is held in full-reference mode)
+			vpAssert(refs[num] >= 1, "live-table-is-referenced")
+			continue
+		}
+		cnt := 0
+		for _, r := range zzRemovedFiles {
+			if r == num {
+				cnt++
+			}
+		}
+		vpAssert(cnt == 1, "dropped-table-removed-exactly-once")
+		_, still := refs[num]
+		vpAssert(!still, "no-reference-left-for-a-dropped-table")
+	}
+	s.manifest.Close()
+	s.manifestWriter.Close()
+	close(s.closeC)
+	vpJoin()
+}
